@@ -497,6 +497,110 @@ b('benign_position_rewrite', SD + 'node/adjacent.rs', """        for (idx, edge)
             .position(|edge| edge.0.upgrade().unwrap().key() == source)
             .ok_or(Error::EdgeNotFound)?;
         Ok(self.inbound.remove(idx).1)""")
+b('benign_extract_kernel_helper', D + 'node/algo/bfs.rs', """    fn loop_outbound(
+        &mut self,
+        result: &mut Vec<Edge<K, N, E>>,
+        visited: &mut HashSet<K>,
+        queue: &mut VecDeque<Node<K, N, E>>,
+    ) -> bool {
+        while let Some(node) = queue.pop_front() {
+            for edge in node.iter_out() {
+                if self.method.exec(&edge) {
+                    let v = edge.1.clone();
+                    if !visited.contains(v.key()) {
+                        visited.insert(v.key().clone());
+                        result.push(edge);
+                        if let Some(ref t) = self.target {
+                            if v.key() == t {
+                                return true;
+                            }
+                        }
+                        queue.push_back(v);
+                    }
+                }
+            }
+        }
+        false
+    }
+""", """    /// Handles one accepted edge: marks and records a newly discovered node.
+    /// Returns true when the target has been found.
+    fn discover(
+        &mut self,
+        edge: Edge<K, N, E>,
+        result: &mut Vec<Edge<K, N, E>>,
+        visited: &mut HashSet<K>,
+        queue: &mut VecDeque<Node<K, N, E>>,
+    ) -> bool {
+        let v = edge.1.clone();
+        if !visited.contains(v.key()) {
+            visited.insert(v.key().clone());
+            result.push(edge);
+            if let Some(ref t) = self.target {
+                if v.key() == t {
+                    return true;
+                }
+            }
+            queue.push_back(v);
+        }
+        false
+    }
+
+    fn loop_outbound(
+        &mut self,
+        result: &mut Vec<Edge<K, N, E>>,
+        visited: &mut HashSet<K>,
+        queue: &mut VecDeque<Node<K, N, E>>,
+    ) -> bool {
+        while let Some(node) = queue.pop_front() {
+            for edge in node.iter_out() {
+                if self.method.exec(&edge) && self.discover(edge, result, visited, queue) {
+                    return true;
+                }
+            }
+        }
+        false
+    }
+""")
+b('benign_extract_target_test', SU + 'node/algo/dfs.rs', """    fn recurse_adjacent(
+        &mut self,
+        result: &mut Vec<Edge<K, N, E>>,
+        visited: &mut HashSet<K>,
+        queue: &mut Vec<Node<K, N, E>>,
+    ) -> bool {
+        if let Some(node) = queue.pop() {
+            for edge in node.iter() {
+                if self.method.exec(&edge) {
+                    let v = edge.target().clone();
+                    if !visited.contains(v.key()) {
+                        visited.insert(v.key().clone());
+                        result.push(edge);
+                        if let Some(ref t) = self.target {
+                            if v.key() == t {
+                                return true;
+                            }
+                        }""", """    fn is_target(&self, v: &Node<K, N, E>) -> bool {
+        match self.target {
+            Some(ref t) => v.key() == t,
+            None => false,
+        }
+    }
+
+    fn recurse_adjacent(
+        &mut self,
+        result: &mut Vec<Edge<K, N, E>>,
+        visited: &mut HashSet<K>,
+        queue: &mut Vec<Node<K, N, E>>,
+    ) -> bool {
+        if let Some(node) = queue.pop() {
+            for edge in node.iter() {
+                if self.method.exec(&edge) {
+                    let v = edge.target().clone();
+                    if !visited.contains(v.key()) {
+                        visited.insert(v.key().clone());
+                        result.push(edge);
+                        if self.is_target(&v) {
+                            return true;
+                        }""")
 b('benign_scc_reversed_iteration', D + 'mod.rs', """        while let Some(node) = ordering.pop() {
             if !invariant.contains(node.key()) {""", """        ordering.reverse();
         for node in ordering {
